@@ -914,6 +914,23 @@ func handshakeSteps(res *core.Result, r *rand.Rand, n int) {
 		victimIsB := r.IntN(2) == 0
 		step := 1 + r.IntN(2) // 1 = response, 2 = ack
 		body := hostileStepBody(r)
+		// the first 408 rounds enumerate (message, victim role, field, hostile value) on an otherwise genuine
+		// message; later rounds replace the whole body
+		values := []any{
+			strings.Repeat("\x01", 10), strings.Repeat("\x01", 3000), strings.Repeat("\x01", 20000), // control characters (quoted 4:1 in error texts)
+			"", "k", strings.Repeat("k", 300), strings.Repeat("k", 9000), strings.Repeat("k", 30000),
+			[]byte{}, []byte{1}, core.RandBytes(r, 31), core.RandBytes(r, 33), core.RandBytes(r, 5000), core.RandBytes(r, 40000),
+			r.IntN(1000) - 500, []any{"x", 1}, r.IntN(2) == 0,
+		}
+		fieldsList := []string{"kxt", "kx", "ua", "err", "c", "ack"}
+		keepRest := i < 2*2*len(fieldsList)*len(values)
+		hostileField, hostileValue := "", any(nil)
+		if keepRest {
+			step = 1 + i%2
+			victimIsB = (i/2)%2 == 0
+			hostileField = fieldsList[(i/4)%len(fieldsList)]
+			hostileValue = values[(i/(4*len(fieldsList)))%len(values)]
+		}
 		w := wire.New()
 		var a, b *wire.Router
 		attDir := wire.AtoB
@@ -930,20 +947,43 @@ func handshakeSteps(res *core.Result, r *rand.Rand, n int) {
 				return [][]byte{msg}
 			}
 			orig := msg[2:]
-			var src, dst [16]byte
-			copy(src[:], orig[16:32])
-			copy(dst[:], orig[32:48])
-			f, err := builder.NewFrameV1(netip.AddrFrom16(src), netip.AddrFrom16(dst), frame.MessageType(orig[4]), nil, body, nil)
+			useBody := body
+			if keepRest {
+				// keep the genuine message (right challenge, right key material) and make one field hostile
+				mi := 49 + int(orig[48])
+				ml := int(orig[mi])<<8 | int(orig[mi+1])
+				var fields map[string]any
+				if mi+2+ml <= len(orig) && cbor.Unmarshal(orig[mi+2:mi+2+ml], &fields) == nil && len(fields) > 0 {
+					fields[hostileField] = hostileValue
+					if b2, err := cbor.Marshal(fields); err == nil {
+						useBody = b2
+					}
+				}
+			}
+			// the frame is written by hand: messages above the builder's 10000-byte cap are still valid on the wire
+			raw := make([]byte, 0, 51+len(useBody)+64)
+			raw = append(raw, orig[:48]...)
+			raw = append(raw, 0, byte(len(useBody)>>8), byte(len(useBody)))
+			raw = append(raw, useBody...)
+			raw = append(raw, make([]byte, 64)...)
+			if len(useBody) > 65000 {
+				return [][]byte{msg}
+			}
+			pf, err := builder.ParseFrame(raw, nil, 0)
 			if err != nil {
 				return [][]byte{msg}
 			}
-			defer f.ReturnToPool()
-			d, _ := f.FrameDataWithMargins(0, 0)
-			copy(d[5:16], orig[5:16]) // keep the sender's sequence/timestamp fields
-			f.SetTTL(0)
-			_ = f.SignRaw(idM.PrivateKey)
-			f.SetTTL(orig[1])
-			d, _ = f.FrameDataWithMargins(0, 0)
+			f1, isV1 := pf.(*frame.FrameV1)
+			if !isV1 {
+				return [][]byte{msg}
+			}
+			f1.SetTTL(0)
+			_ = f1.SignRaw(idM.PrivateKey)
+			f1.SetTTL(orig[1])
+			d := raw // the frame was parsed in place: signature and TTL are in raw
+			if len(d)+2 > 65535 {
+				return [][]byte{msg}
+			}
 			out := make([]byte, 2+len(d))
 			binary.BigEndian.PutUint16(out, uint16(len(out)))
 			copy(out[2:], d)
@@ -971,6 +1011,13 @@ func handshakeSteps(res *core.Result, r *rand.Rand, n int) {
 		}
 		w.A.Close()
 		w.B.Close()
+		if os.Getenv("C13_DEBUG") != "" && keepRest {
+			e := "<nil>"
+			if vres.Err != nil {
+				e = vres.Err.Error()
+			}
+			fmt.Fprintf(os.Stderr, "HS step=%d victimIsB=%v field=%s value=%T/%d replaced=%v err=%.150s\n", step, victimIsB, hostileField, hostileValue, len(fmt.Sprint(hostileValue)), replaced, e)
+		}
 		res.Case(fmt.Sprintf("handshake-step|%d|%v|%d", step, victimIsB, i%8), replaced)
 		if replaced {
 			res.Count("handshake_hostile_steps", 1)
@@ -1440,7 +1487,7 @@ func run(c *core.Ctx) {
 			handshakeFuzz(res, r, c.Q(1500, 40000))
 		case w == 10:
 			handshakeFuzz(res, r, c.Q(1000, 30000))
-			handshakeSteps(res, r, c.Q(400, 10000))
+			handshakeSteps(res, r, c.Q(520, 10000))
 		default:
 			postHandshakeGarbage(res, r, c.Q(60, 1500))
 		}
